@@ -15,6 +15,7 @@
 import Gotree.Lemmas.C08Bits
 import Gotree.Lemmas.C08HM
 import Gotree.Lemmas.C08Rooted
+import Gotree.Lemmas.C08Inv
 
 namespace Gotree.C08
 open Gotree List
@@ -276,6 +277,131 @@ theorem bitset_model_eq_canonical (r c : T) (tips sc : Bool) :
     compareWeighted r c tips sc = Canon.compareWeighted r c tips sc :=
   ⟨compare_eq r c tips sc, compareWeighted_eq r c tips sc⟩
 
+/-! ## the rooting / child-order clause, about C05's operation models -/
+
+/-- `Reroot` (C05's model `C05.reroot`, any target node) applied to either tree does not change
+    the record: by `C05.P.reroot_preserves` the re-rooted trees have the same tips, non-trivial
+    splits and tip branches, which is all the record depends on.  (`unrootedOK` of the results
+    is the one shape hypothesis kept: re-rooting an unrooted tree on a node with two neighbours
+    would make it rooted; the driver evaluates it on every re-rooted copy.) -/
+theorem compare_reroot_invariant (r c r' c' : T) (pr pc : List Nat) (tips : Bool)
+    (hT : sameTaxa r c = true) (hr : unrootedOK r = true) (hc : unrootedOK c = true)
+    (hlr : C05.lensOK r = true) (hlc : C05.lensOK c = true)
+    (h1 : C05.reroot r pr = .ok r') (h2 : C05.reroot c pc = .ok c')
+    (hr' : unrootedOK r' = true) (hc' : unrootedOK c' = true) :
+    compare r' c' tips false = compare r c tips false := by
+  have sr := sameU_reroot (uniq_of_unrootedOK hr) hlr h1
+  have sc := sameU_reroot (uniq_of_unrootedOK hc) hlc h2
+  exact compare_invariant r c r' c' tips hT (sameTaxa_of_perms hT sr.tips sc.tips) hr hc hr' hc'
+    (sr.sameSplits tips) (sc.sameSplits tips)
+
+/-- the same with the hypothesis on the INPUTS: every node the re-rooting walks through, the
+    target included, is an inner node (`innerPath`; `Reroot` itself refuses a tip target) — then
+    the re-rooted trees are again trees of the property (`unrootedOK_reroot`) and the record is
+    unchanged.  No hypothesis on the results. -/
+theorem compare_reroot_invariant_inner (r c r' c' : T) (pr pc : List Nat) (tips : Bool)
+    (hT : sameTaxa r c = true) (hr : unrootedOK r = true) (hc : unrootedOK c = true)
+    (hlr : C05.lensOK r = true) (hlc : C05.lensOK c = true)
+    (h1 : C05.reroot r pr = .ok r') (h2 : C05.reroot c pc = .ok c')
+    (hpr : innerPath r pr none = true) (hpc : innerPath c pc none = true) :
+    compare r' c' tips false = compare r c tips false :=
+  compare_reroot_invariant r c r' c' pr pc tips hT hr hc hlr hlc h1 h2
+    (unrootedOK_reroot hr hpr h1) (unrootedOK_reroot hc hpc h2)
+
+/-- `exR` re-rooted on its cherry `(a,b)` (path `[0]`): the hypotheses hold -/
+example : innerPath exR [0] none = true ∧ (∃ t', C05.reroot exR [0] = .ok t') := ⟨by decide, ⟨_, rfl⟩⟩
+
+/-- `RotateInternalNodes` (C05's model `C05.rotate`, any draws) applied to either tree does not
+    change the record. -/
+theorem compare_rotate_invariant (r c : T) (dr dc : List Nat) (tips : Bool)
+    (hT : sameTaxa r c = true) (hr : unrootedOK r = true) (hc : unrootedOK c = true)
+    (hlr : C05.lensOK r = true) (hlc : C05.lensOK c = true)
+    (hr' : unrootedOK (C05.rotate r dr) = true) (hc' : unrootedOK (C05.rotate c dc) = true) :
+    compare (C05.rotate r dr) (C05.rotate c dc) tips false = compare r c tips false := by
+  have sr := sameU_rotate r dr hlr
+  have sc := sameU_rotate c dc hlc
+  exact compare_invariant r c _ _ tips hT (sameTaxa_of_perms hT sr.tips sc.tips) hr hc hr' hc'
+    (sr.sameSplits tips) (sc.sameSplits tips)
+
+/-- one-edge root moves (of which `Reroot` is the fold, DESIGN §3.1) towards inner children, in
+    both trees: no hypothesis on the results — `unrootedOK` is preserved (`unrootedOK_moveRoot`). -/
+theorem compare_moveRoot_invariant (r c : T) (i j : Nat) (ei ej : EdgeD) (ci cj : T) (tips : Bool)
+    (hT : sameTaxa r c = true) (hr : unrootedOK r = true) (hc : unrootedOK c = true)
+    (hlr : C05.lensOK r = true) (hlc : C05.lensOK c = true)
+    (hi : r.kids[i]? = some (ei, ci)) (hii : ci.isLeaf = false)
+    (hj : c.kids[j]? = some (ej, cj)) (hji : cj.isLeaf = false) :
+    compare (C05.moveRoot r i) (C05.moveRoot c j) tips false = compare r c tips false := by
+  have sr := sameU_moveRoot r i (uniq_of_unrootedOK hr) hlr
+  have sc := sameU_moveRoot c j (uniq_of_unrootedOK hc) hlc
+  exact compare_invariant r c _ _ tips hT (sameTaxa_of_perms hT sr.tips sc.tips) hr hc
+    (unrootedOK_moveRoot r i ei ci hr hi hii) (unrootedOK_moveRoot c j ej cj hc hj hji)
+    (sr.sameSplits tips) (sc.sameSplits tips)
+
+/-- The weighted record too depends only on what C05's operations preserve: for trees related by
+    `SameU` (same tips, same non-trivial splits with their data, same tip-branch lengths) the three
+    term lists agree up to order and the flag is the same. -/
+theorem weighted_invariant (r c r' c' : T) (tips : Bool) (hT : sameTaxa r c = true)
+    (hr : unrootedOK r = true) (hc : unrootedOK c = true) (hr' : unrootedOK r' = true) (hc' : unrootedOK c' = true)
+    (sr : SameU r r') (sc : SameU c c') :
+    ∃ w w', compareWeighted r c tips false = .ok w ∧ compareWeighted r' c' tips false = .ok w' ∧
+      w'.tree1 ~ w.tree1 ∧ w'.tree2 ~ w.tree2 ∧ w'.common ~ w.common ∧ w'.same = w.same := by
+  have hT' := sameTaxa_of_perms hT sr.tips sc.tips
+  obtain ⟨w, h0, a1, a2, a3, a4⟩ := weighted_terms r c tips hT hr hc
+  obtain ⟨w', h0', b1, b2, b3, b4⟩ := weighted_terms r' c' tips hT' hr' hc'
+  obtain ⟨_, _, g3, g4, _⟩ := Canon.good_parts (unrooted_good c' hc')
+  obtain ⟨t1, t2, t3⟩ := spec_terms_invariant tips sr sc (Canon.S_nodup c' tips g3 g4)
+  refine ⟨w, w', h0, h0', b1.trans (t1.trans a1.symm), b2.trans (t2.trans a2.symm), b3.trans (t3.trans a3.symm), ?_⟩
+  rw [a4, b4]
+  unfold wSame
+  have hs : sameSplits r' c' tips = sameSplits r c tips := by
+    have pR := sr.S_perm tips
+    have pC := sc.S_perm tips
+    unfold sameSplits
+    rw [Bool.eq_iff_iff]
+    simp only [Bool.and_eq_true, isEmpty_iff, ← length_eq_zero_iff, Canon.diffL_eq]
+    rw [(Canon.diff_perm pR pC).length_eq, (Canon.diff_perm pC pR).length_eq]
+  rw [hs, t3.all_eq]
+
+/-- `Reroot` / `RotateInternalNodes` (C05's models) on either tree do not change the weighted
+    record either (terms up to order, same flag). -/
+theorem weighted_reroot_invariant (r c r' c' : T) (pr pc : List Nat) (tips : Bool)
+    (hT : sameTaxa r c = true) (hr : unrootedOK r = true) (hc : unrootedOK c = true)
+    (hlr : C05.lensOK r = true) (hlc : C05.lensOK c = true)
+    (h1 : C05.reroot r pr = .ok r') (h2 : C05.reroot c pc = .ok c')
+    (hr' : unrootedOK r' = true) (hc' : unrootedOK c' = true) :
+    ∃ w w', compareWeighted r c tips false = .ok w ∧ compareWeighted r' c' tips false = .ok w' ∧
+      w'.tree1 ~ w.tree1 ∧ w'.tree2 ~ w.tree2 ∧ w'.common ~ w.common ∧ w'.same = w.same :=
+  weighted_invariant r c r' c' tips hT hr hc hr' hc'
+    (sameU_reroot (uniq_of_unrootedOK hr) hlr h1) (sameU_reroot (uniq_of_unrootedOK hc) hlc h2)
+
+theorem weighted_rotate_invariant (r c : T) (dr dc : List Nat) (tips : Bool)
+    (hT : sameTaxa r c = true) (hr : unrootedOK r = true) (hc : unrootedOK c = true)
+    (hlr : C05.lensOK r = true) (hlc : C05.lensOK c = true)
+    (hr' : unrootedOK (C05.rotate r dr) = true) (hc' : unrootedOK (C05.rotate c dc) = true) :
+    ∃ w w', compareWeighted r c tips false = .ok w ∧
+      compareWeighted (C05.rotate r dr) (C05.rotate c dc) tips false = .ok w' ∧
+      w'.tree1 ~ w.tree1 ∧ w'.tree2 ~ w.tree2 ∧ w'.common ~ w.common ∧ w'.same = w.same :=
+  weighted_invariant r c _ _ tips hT hr hc hr' hc' (sameU_rotate r dr hlr) (sameU_rotate c dc hlc)
+
+/-- the hypotheses of `compare_moveRoot_invariant` hold on `exR` (move to the cherry `(a,b)`) and
+    `exC`; lengths are all 1 -/
+example : C05.lensOK exR = true ∧ C05.lensOK exC = true ∧
+    (∃ e c, exR.kids[0]? = some (e, c) ∧ c.isLeaf = false) ∧ (∃ e c, exC.kids[0]? = some (e, c) ∧ c.isLeaf = false) :=
+  ⟨by decide, by decide, ⟨_, _, rfl, rfl⟩, ⟨_, _, rfl, rfl⟩⟩
+
+/-- `compare_swap`, with the identical-only shortcut: the flag is the same in both orders. -/
+theorem sametree_shortcut_swap (r c : T) (tips : Bool) (hT : sameTaxa r c = true)
+    (hr : unrootedOK r = true) (hc : unrootedOK c = true) (st st' : Stats)
+    (h : compare r c tips true = .ok st) (h' : compare c r tips true = .ok st') : st'.same = st.same := by
+  rw [sametree_shortcut r c tips hT hr hc st h,
+    sametree_shortcut c r tips (Canon.sameTaxa_symm r c hT) hc hr st' h']
+  unfold sameSplits
+  exact Bool.and_comm _ _
+
+/-- hypotheses of `different_taxa_err` on a concrete pair: `exR` against `((a,zz),c,(d,e))` -/
+def exZ : T := .node ⟨"", []⟩ 0 [exNode [exLeaf "a", exLeaf "zz"], exLeaf "c", exNode [exLeaf "d", exLeaf "e"]]
+example : reinitOk exR = true ∧ reinitOk exZ = true ∧ sameTaxa exR exZ = false := by decide
+
 /-! ## any shape: rooted trees, single-child nodes (outside the property's quantifier; tie only) -/
 
 /-- `Compare` without the shortcut on ANY two indexable trees on the same taxa, in closed form
@@ -342,5 +468,24 @@ theorem weighted_terms_hm (H : String → UInt64) (policy : Nat → Nat → Bool
       w.common ~ commonDiffs (U tips r) (U tips c) ∧ w.same = wSame r c tips := by
   obtain ⟨w, h0, h⟩ := weighted_terms r c tips hT hr hc
   exact ⟨w, by rw [compareWeightedHM_eq, h0], h⟩
+
+/-- `different_taxa_err` through `ReinitIndexes` and the hash map: on two indexable trees with
+    other taxa the record carries the error, for every name hash and every rehash policy. -/
+theorem different_taxa_err_hm (H : String → UInt64) (policy : Nat → Nat → Bool) (r c : T) (tips sc : Bool)
+    (hr : reinitOk r = true) (hc : reinitOk c = true) (h : sameTaxa r c = false) :
+    compareHM H policy r c tips sc = .res .err ∧ compareWeightedHM H policy r c tips sc = .res .err := by
+  obtain ⟨h1, h2, _⟩ := different_taxa_err r c tips sc hr hc h
+  exact ⟨by rw [compareHM_eq, h1], by rw [compareWeightedHM_eq, h2]⟩
+
+/-- The code before fix e41ab42 tested `err` where `inerr` was meant and went on comparing a tree
+    with other taxa (bitsets of another width looked up in the hash map).  The pinned variants
+    `compareHMFallthrough` / `compareWeightedHMFallthrough` follow that path: nothing panics, for
+    every name hash and every rehash policy, and the records are the same on ALL inputs — the
+    slip was not observable through `Err` (only through the counts a rejected record carries,
+    which the harness now reports and ties to `errRecord`). -/
+theorem err_slip_pinned_harmless (H : String → UInt64) (policy : Nat → Nat → Bool) (r c : T) (tips sc : Bool) :
+    compareHMFallthrough H policy r c tips sc = .res (compare r c tips sc) ∧
+    compareWeightedHMFallthrough H policy r c tips sc = .res (compareWeighted r c tips sc) :=
+  ⟨compareHMFallthrough_eq' H policy r c tips sc, compareWeightedHMFallthrough_eq' H policy r c tips sc⟩
 
 end Gotree.C08
